@@ -80,6 +80,10 @@ CLAIMED = {
             "Fault enumeration: for ~100 fixed documents (hand-written lookahead-hungry texts/binaries + deterministic generator examples) every split point x {EOF alone, EOF with data} x {full, container-skipping traversal}, and a read failure at every byte offset x {alone, with data} x {persistent, one-off} x {whole, byte-at-a-time}; for 40 fixed call sequences x 4 writer configurations a write failure at every Write-call index x {nothing, half accepted} x {persistent, one-off}; plus ~17 000 random (document, plan) / (sequence, fault) cases per quick run including documents straddling bufio's 4096-byte buffer and corrupted documents.",
             "Faults are injected in the io.Reader / io.Writer the harness hands to ion-go (no hooks). A read plan returns at most one (0,nil) in a row. One-off (transient) faults are part of the fault model: the reader/writer must still report them. Trusts the harness's plan reader / fault writer, rapid, Go.",
             "DESIGN.md section 5, C19"),
+    "C20": (PBT + " driving the rebuilt ion-go binary as a subprocess; reference-decoder oracle on its output files (values for text / pretty / binary, an event-by-event walk of the input model for events) and a validity oracle (exit status, no panic text, error report entry for invalid input)",
+            "Exploration with an enumerated grid: every type, every typed null and several container / annotation shapes, alone and together, in text and binary x 6 output formats x file input (stdin for every third), plus 400 generated documents per quick run (all types, spelling variety, local symbol tables, 20% invalid from the C07 catalogue) each through all six formats: ~3000 process runs.",
+            "Process creation dominates the cost (about 10 ms per run on this sandbox), which bounds the quick tier; inputs whose validity the reference leaves undecided are judged for 'no crash' only. Trusts the reference decoders.",
+            "DESIGN.md section 5, C20"),
 }
 
 PENDING_REASON = "check not built yet in this session (work in progress; see DESIGN.md section 8)"
